@@ -45,6 +45,23 @@ CLAIMS = {
              "trusted to respect == on int/float/str/date/tuple/frozenset.",
         tech="Lean 4 proof (iff characterisation, counting argument for edits) + probed hash tables + truth-table "
              "correspondence"),
+    "C03": dict(level=TV, ref="§7 C03",
+        text="A heap model (locations, arrays, dicts, scalars; Python's += in place on arrays, rebinding on scalars; "
+             "fresh allocation for {**a,**b}, dict(a), comprehensions) on which five accumulating helpers "
+             "(_conforming_sum, _conforming_weighted_average, _values_add, _values_diff, _merge_cell_pair) are modelled "
+             "statement by statement, each parameterised by its ACCUMULATOR PATTERN regenerated from /repo's AST on "
+             "every run (how each augmented/subscript assignment target is initialised). 19 kernel-checked theorems: "
+             "frame_<fn> (every location reachable from the arguments is unchanged after the call, also when it "
+             "raises), pattern_<fn>.targetsFresh = true by decide for the regenerated patterns, all_patterns_fresh over "
+             "25 anchor functions, frame_chain (position in a chain), and a negative control (total := values[0] "
+             "violates the frame). The statement for the remaining helpers and ~80 public entry points is OPEN; they "
+             "are covered by the correspondence: a registry of 82 public operations x argument shapes x chain "
+             "positions, deep fingerprints (class, dates, metadata incl. dict order, key order, value type, dtype, "
+             "shape, raw bytes) of every argument before and after each call whether it returned or raised, and a "
+             "second run with every argument array read-only.",
+        note=COMMON_NOTE + "Aliasing inside numpy/pandas/altair is not modelled; the theorem covers the five modelled "
+             "helpers, the entry points are covered by fingerprints only (hence translation_validation).",
+        tech="Lean 4 frame theorems on a heap model + AST-regenerated accumulator patterns + fingerprint correspondence"),
     "C04": dict(level=TV, ref="§7 C04",
         text="Kernel-checked theorems about the model of to_incremental / to_cumulative: toCum_toInc (exact round trip "
              "for every well-formed cumulative triangle: order, dates, metadata, key order, values and value kinds; "
@@ -242,6 +259,20 @@ CLAIMS = {
              "renormalisation, share and pattern normalisation). Policy-year conversion with continuous_issuance=False "
              "and accident periods no policy reaches is outside the share table's contract (reported as uncovered).",
         tech="Lean 4 theorems over Q (conservation laws) + regenerated tables + differential correspondence"),
+    "C20": dict(level=TV, ref="§7 C20",
+        text="19 kernel-checked theorems about the model of build_plot_data and FieldSummary: "
+             "records_one_per_cell_in_order, lossRatio_value (100*loss/premium), passthrough_value, ata_value, "
+             "absent_input_no_summary, quantile_levels_named and quantile_levels_sorted (decide +kernel over the "
+             "tables regenerated from /repo: q2_5 -> 1/40 ... q97_5 -> 39/40 position by position), quantile_mono "
+             "(numpy's linear-interpolation quantile over Q is monotone in the level), min_le_quantile_le_max, "
+             "summary_monotone, neighbours_same_slice. The metric table (COMMON_METRIC_DICT bodies, arity, order) is "
+             "regenerated each run. One bridge statement OPEN. Correspondence: records of build_plot_data vs model, the "
+             "Lean Spec on the implementation's records, percentiles recomputed independently with fractions, and "
+             "every working plot_* method validated against altair's bundled Vega-Lite schema with one facet per slice.",
+        note=COMMON_NOTE + "altair/Vega-Lite validity and the chart builders are library behaviour (correspondence only); "
+             "sd uses a square root (compared through its square); plot_drip/plot_hose fail on the unchanged tree with "
+             "the installed altair and are excluded (probed and listed each run); ratios at tolerance 2^-40.",
+        tech="Lean 4 theorems over Q (quantile monotonicity) and over regenerated tables + record-level correspondence"),
 }
 
 PENDING = ("check under construction in this round (model and correspondence not yet integrated); it will be claimed "
